@@ -27,7 +27,7 @@ const c04L = 1 << 16
 
 func init() {
 	core.Register(c04{base{id: "C04", level: "fault_enumeration", quickB: 16, thoroughB: 32,
-		rule: "two parts, both in isolated child processes (a panic anywhere kills the child = crash witness). (1) fault enumeration, exhaustive: for each canonical session (auth ok/rejected, simple, multi-statement, extended batch, error batch, text and binary COPY ok/aborted, oversized message, Terminate, generated C15 sessions; 10 in quick, 40 in thorough) the fault-free run's number of transport Read calls, Write calls and inbound bytes is measured, then the session is re-run with the transport failing at EVERY k-th Read (error and EOF), EVERY k-th Write (error and short write) and EVERY inbound byte offset. (2) input exploration: structure-aware mutation of valid streams (truncate at any offset, set any length/count field to 0,1,max-1,max,2^31,2^32-1, flip type bytes, duplicate/reorder/delete messages, splice random bytes, well-framed Bind messages whose format-code, value and result-format counts are mutually independent) on fresh connections (incl. SSLRequest and password phases), after a valid startup incl. COPY mode, and inside upgraded TLS connections; handlers call ParseParameters on every query, Parameter.Scan on every parameter and the binary COPY row reader. Oracles: process survives; after EOF/transport failure the server's own Close is observed and at most 64 further transport calls are made (spin detector); no (*Server).serve goroutine is left at batch end; a fresh probe connection is served after every 200 cases; allocation sanitizer: no object allocated by library code exceeds 8L+4MiB; no fabricated data: query texts reaching the parser are, in order, a subsequence of the texts carried by well-framed Query/Parse frames of the input, parameter values and COPY chunks are byte strings of the input. Non-trivial = fault at a position the fault-free run reaches, or a mutated stream; distinct = (session, fault kind, position) / mutation shape.",
+		rule: "two parts, both in isolated child processes (a panic anywhere kills the child = crash witness). (1) fault enumeration, exhaustive: for each canonical session (auth ok/rejected, simple, multi-statement, extended batch, error batch, text and binary COPY ok/aborted, oversized message, Terminate, CancelRequest alone / followed by traffic, GSSENCRequest, generated C15 sessions; 15 in quick, 40 in thorough) the fault-free run's number of transport Read calls, Write calls and inbound bytes is measured, then the session is re-run with the transport failing at EVERY k-th Read (error and EOF), EVERY k-th Write (error and short write) and EVERY inbound byte offset. (1b) CancelRequest / SSLRequest / GSSENCRequest packets carrying 0-12 bytes behind the request code, as first packet, after a refused SSLRequest and inside an upgraded TLS connection. (2) input exploration: structure-aware mutation of valid streams (truncate at any offset, set any length/count field to 0,1,max-1,max,2^31,2^32-1, flip type bytes, duplicate/reorder/delete messages, splice random bytes, well-framed Bind messages whose format-code, value and result-format counts are mutually independent) on fresh connections (incl. SSLRequest and password phases), after a valid startup incl. COPY mode, and inside upgraded TLS connections; handlers call ParseParameters on every query, Parameter.Scan on every parameter and the binary COPY row reader. Oracles: process survives; after EOF/transport failure the server's own Close is observed and at most 64 further transport calls are made (spin detector); no (*Server).serve goroutine is left at batch end; a fresh probe connection is served after every 200 cases; allocation sanitizer: no object allocated by library code exceeds 8L+4MiB; no fabricated data: query texts reaching the parser are, in order, a subsequence of the texts carried by well-framed Query/Parse frames of the input, parameter values and COPY chunks are byte strings of the input. Non-trivial = fault at a position the fault-free run reaches, or a mutated stream; distinct = (session, fault kind, position) / mutation shape.",
 		need:        []string{"fault_runs", "read_faults", "write_faults", "byte_offset_faults", "mutated_inputs", "server_close_observed", "probe_connections_served", "leak_checks", "alloc_profile_checks", "fabrication_checks"},
 		assumptions: append([]string{"allocation bound is c*L+K (8L+4MiB): the library allocates in 4 KiB granules and its 16-bit count fields cap tables at ~2.6 MiB regardless of L; a malformed body may be answered by an ErrorResponse or by closing the connection; after a frame with a declared length below 4 the input is not judged for fabrication"}, commonAssumptions...)}})
 }
@@ -108,6 +108,9 @@ func c04canonical(rng *core.Rng, n int) []c04session {
 			pg.Bind("pb2", "b", nil, [][]byte{[]byte("2")}, nil), pg.Describe('P', "pb2"), pg.Execute("pb2", 0), pg.Close('P', "pb"), pg.Sync(), pg.Query("select 1"), pg.Terminate()})},
 		{Name: "copy-text-abort", Msgs: cat([][]byte{start, pg.Query("copyt in"), pg.CopyData([]byte("a\t1\n")), pg.Flush(), pg.CopyFail("stop"), pg.CopyData([]byte("late")), pg.Query("select 1"), pg.Terminate()})},
 		{Name: "oversized", Msgs: cat([][]byte{start, pg.Raw('Q', bytes.Repeat([]byte{'o'}, c04L+100)), pg.Query("select 1"), pg.Raw('P', bytes.Repeat([]byte{'o'}, 2*c04L+1)), pg.Sync(), pg.Terminate()})},
+		{Name: "cancel", Msgs: cat([][]byte{pg.CancelRequest(4711, 0x01020304)})},
+		{Name: "cancel-then-traffic", Msgs: cat([][]byte{pg.CancelRequest(1, 2), start, pg.Query("select 1"), pg.Terminate()})},
+		{Name: "gssenc-then-startup", Msgs: cat([][]byte{pg.GSSENCRequest(), start, pg.Query("select 1"), pg.Terminate()})},
 		{Name: "ssl-refused", Msgs: cat([][]byte{pg.SSLRequest(), start, pg.Query("select 1"), pg.Terminate()})},
 	}
 	for i := len(all); i < n; i++ {
@@ -144,7 +147,7 @@ func (ch c04) Run(c *core.Ctx) {
 	envTLS := hs.Start(hs.Parse, wire.MessageBufferSize(c04L), wire.TLSConfig(hs.ServerTLS()))
 	envs := c04envs{plain: hs.Start(hs.Parse, wire.MessageBufferSize(c04L)), auth: hs.Start(hs.Parse, wire.MessageBufferSize(c04L), wire.SessionAuthStrategy(wire.ClearTextPassword(c04validator)))}
 	nb := ch.Batches(c.Tier)
-	ncanon, nmut := 12, 2500
+	ncanon, nmut := 15, 2500
 	if c.Tier == "thorough" {
 		ncanon, nmut = 40, 400000
 	}
@@ -272,6 +275,53 @@ func (ch c04) Run(c *core.Ctx) {
 	}
 	if c.Batch == 0 {
 		c.Count("exhaustive_parts", 1)
+	}
+	// ---- special request packets of every (consistent) size, at every position a first packet can have ----
+	// CancelRequest / SSLRequest / GSSENCRequest carrying 0-12 bytes behind the code, as first packet,
+	// after a refused SSLRequest and inside an upgraded TLS connection
+	if c.Batch == 0 && c.Begin(800000000) {
+		for _, code := range []uint32{pg.VerCancel, pg.VerSSL, pg.VerGSSENC} {
+			for k := 0; k <= 12; k++ {
+				pkt := pg.StartupRaw(code, bytes.Repeat([]byte{byte(k + 1)}, k))
+				for _, pos := range []string{"first", "after-N", "inside-tls"} {
+					sess := c04sess()
+					switch pos {
+					case "inside-tls":
+						t, _, err := c11upgrade(envTLS, sess, nil, false, tls.VersionTLS13)
+						if err != nil {
+							continue
+						}
+						t.tc.Write(pkt)
+						t.conn.Quiesce()
+						t.tc.Close()
+						t.conn.CloseWrite()
+						if !t.conn.WaitClosed() {
+							_, lib := core.ClassifyHang()
+							c.Violate("wedge", "connection handling does not end after a special request packet inside TLS", strings.Join(lib, "; "), map[string]any{"code": code, "extra_bytes": k})
+							c.Finish()
+						}
+					default:
+						conn := tr.NewConn(sess)
+						envs.plain.L.DialConn(conn)
+						if pos == "after-N" {
+							conn.Send(pg.SSLRequest())
+							conn.Quiesce()
+						}
+						conn.Send(pkt)
+						conn.Quiesce()
+						conn.CloseWrite()
+						if !conn.WaitClosed() {
+							_, lib := core.ClassifyHang()
+							c.Violate("wedge", "connection handling does not end after a special request packet ("+pos+")", strings.Join(lib, "; "), map[string]any{"code": code, "extra_bytes": k})
+							c.Finish()
+						}
+					}
+					c.Count("special_request_packets", 1)
+					c.Eval(fmt.Sprintf("special %d +%d %s", code, k, pos), true)
+				}
+			}
+		}
+		probe()
 	}
 	// ---- part 2: input exploration ----
 	for i := c.Batch; i < nmut; i += nb {
